@@ -154,5 +154,7 @@ def run(repo: Repo, tier: str) -> Report:
     chk = [st for st in m_.body if isinstance(st, ast.If) and norm_stmt(st.test) in ("sg is None and s is None", "s is None and sg is None")
            and st.body and isinstance(st.body[-1], ast.Raise) and "ValueError" in ast.unparse(st.body[-1])]
     rep.ob("R-VALIDATE", AFILE, "WhittakerSmoother.whits", "neither s nor sgrid raises ValueError", len(chk) == 1, "", "Need S or sgrid")
+    from ..rules import r_truthy
+    r_truthy(rep, repo, "WhittakerSmoother", "whits", ["nodata"], "0 is a legitimate nodata value (it is the one the test-suite uses); a truth test silently replaces or drops it")
     rep.floor("C03 obligations", len(rep.obls), 25)
     return rep
